@@ -47,6 +47,40 @@ func hasCond(e ast.Expr) string {
 	return found
 }
 
+// hasCondStrict is hasCond for the writer: see below.
+func hasCondStrict(e ast.Expr) string {
+	found := hasCond(e)
+	if found != "" {
+		// a flagged field is written (and counted in the size) whenever its flag is set: the only other conjunct the
+		// writer may add is a nil-pointer guard; any further condition makes the bytes written differ from the size
+		// computed from the flags alone
+		for _, cj := range conjuncts(e) {
+			switch x := cj.(type) {
+			case *ast.CallExpr:
+				if sel, ok := x.Fun.(*ast.SelectorExpr); ok && strings.HasPrefix(sel.Sel.Name, "Has") {
+					continue
+				}
+			case *ast.BinaryExpr:
+				if id, ok := x.Y.(*ast.Ident); ok && id.Name == "nil" && x.Op == token.NEQ {
+					continue
+				}
+			}
+			return found + "+extra-condition"
+		}
+	}
+	return found
+}
+
+func conjuncts(e ast.Expr) []ast.Expr {
+	if p, ok := e.(*ast.ParenExpr); ok {
+		return conjuncts(p.X)
+	}
+	if b, ok := e.(*ast.BinaryExpr); ok && b.Op == token.LAND {
+		return append(conjuncts(b.X), conjuncts(b.Y)...)
+	}
+	return []ast.Expr{e}
+}
+
 func sizeVarOf(name string) string {
 	switch name {
 	case "Data", "DataSize":
@@ -97,7 +131,7 @@ func writerRecords(pk *packages.Package, body []ast.Stmt, cond string, out *[]re
 				}
 			}
 		case *ast.IfStmt:
-			c := hasCond(s.Cond)
+			c := hasCondStrict(s.Cond)
 			if c == "" {
 				c = cond
 			}
